@@ -691,6 +691,56 @@ def rule_r11(chk, prog):
     chk.floor('C11.R11', '"return None" sites of substitute', n, 1)
 
 
+def rule_r15(chk, prog):
+    chk.rule('C11.R15', 'a simplification is applied once: substitute() '
+             'consumes the identity keys of the dictionary it is given, so '
+             'no apply_simp / substitute call sits in a loop whose body does '
+             'not also create the simplification it applies')
+    n = 0
+    for mn in ('strategy_hierarchical', 'strategy_ddmin'):
+        m = prog.mod(mn)
+        for q, f in m.funcs.items():
+            if '<locals>' in q:
+                continue
+            for c in walk_no_nested(f):
+                if not (isinstance(c, ast.Call) and (call_name(c) or ''
+                                                     ).split('.')[-1] in (
+                        'apply_simp', 'substitute') and len(c.args) >= 2):
+                    continue
+                n += 1
+                s_ = c.args[1]
+                root = s_
+                while isinstance(root, (ast.Attribute, ast.Subscript)):
+                    root = root.value
+                if not isinstance(root, ast.Name):
+                    continue
+                # enclosing loops inside f
+                p_ = getattr(c, '_parent', None)
+                loops = []
+                while p_ is not None and p_ is not f:
+                    if isinstance(p_, (ast.For, ast.While)):
+                        loops.append(p_)
+                    p_ = getattr(p_, '_parent', None)
+                for lp in loops:
+                    bound = isinstance(lp, ast.For) and any(
+                        isinstance(y, ast.Name) and y.id == root.id
+                        for y in ast.walk(lp.target))
+                    bound = bound or any(
+                        isinstance(y, ast.Name) and y.id == root.id
+                        and isinstance(y.ctx, ast.Store)
+                        for b in lp.body for y in ast.walk(b))
+                    chk.check('C11.R15', f'{mn}.{q}', c, bound,
+                              f'"{unparse(c)[:50]}" is repeated by the loop '
+                              f'at line {lp.lineno} with the same '
+                              f'"{root.id}": the first application pops the '
+                              'identity keys, the second one finds none - '
+                              'the unmodified input is checked and reported '
+                              'as the simplified candidate',
+                              loc=m.loc(c), nontrivial=True)
+    chk.floor('C11.R15', 'applications of a simplification in the '
+              'strategies', n, 2)
+
+
 def run(tier):
     prog = Program()
     chk = Check(
@@ -770,6 +820,7 @@ def run(tier):
     chk.adopt('C11.R14', 'the declarations inserted are the requested ones: '
               'no record shares a mutable default between simplifications '
               '(shared with C15.R13)', sub15)
+    chk.guard(rule_r15, chk, prog)
     extra = None
     if tier == 'thorough':
         from .. import selftest
